@@ -43,6 +43,10 @@ pub fn run(case: &Value, em: &mut Emitter) {
     }
 }
 pub fn run_c03(case: &Value, em: &mut Emitter) {
+    if case["op"] == "bigmap" {
+        crate::big::run_encode_big(case, em);
+        return;
+    }
     for (how, _m, _doc, d) in realise(case) {
         let p1 = proj_map(&d);
         em.emit("encode", json!({"how": how, "p1": p1, "via": "direct"}), encode_out(&d));
@@ -120,6 +124,9 @@ pub fn gen_model(rng: &mut Rng, size: usize, with_range: bool) -> Value {
     m
 }
 
+pub fn gen_c03(rng: &mut Rng, size: usize) -> Value {
+    if rng.chance(1, 4) { crate::big::gen_big(rng, size) } else { gen(rng, size) }
+}
 pub fn gen(rng: &mut Rng, size: usize) -> Value {
     match rng.below(10) {
         0 | 1 => json!({"op": "map", "doc": strip_junk(gen_index_doc(rng, size, 2))}),
